@@ -149,6 +149,11 @@ def run(R):
                       "itself iterated to a fixpoint and followed by one); a single straight-line pass loses every fact that depends on a "
                       "conclusion of a rule with negation")
     r10(R)
+    R.rule("C05-R11", "match-or-bind sees its own earlier bindings: a helper that matches one pattern against one fact looks every variable up in the "
+                      "map that receives the new bindings, and a binding made for one position is in that map before the next position is looked "
+                      "up (in the failed-lookup branch, before the next lookup / the loop's next turn). Staging the new bindings elsewhere and "
+                      "committing them at the end lets `rel(?V, ?V)` match a fact with different subject and object")
+    r11(R)
     R.rule("C05-R7", "match-or-bind is the last word on a binding row: after a premise position was matched against (or bound in) a row by "
                      "a match-or-bind helper, nothing overwrites entries of that row before it is emitted - a plain insert after the "
                      "test can replace the very value the test just accepted (repeated variable across positions)")
@@ -481,3 +486,46 @@ def r10(R):
                  "derives is never offered to the positive rules (or to another rule with negation), so the result is not the stratified model "
                  "whenever a conclusion of a rule with negation occurs in a rule body")
     R.floor("C05-R10", "drivers that split the rules on negative_premise and run a separate negative pass", n, 1)
+
+
+
+def r11(R):
+    prog = R.prog
+    n = 0
+    for k, b in sorted(prog.bodies.items()):
+        if b.crate not in ("datalog", "shared") or b.is_closure or "::tests::" in k or b.local_ty(0) != "bool":
+            continue
+        at = b.arg_tys()
+        if not (any("HashMap<alloc::string::String, u32>" in t and t.startswith("&mut") for t in at) and any("Triple" in t for t in at)):
+            continue
+        maps = lambda c: F.op_place(c.args[0]) is not None and "HashMap<alloc::string::String, u32>" in b.local_ty(b.alias_root(c.args[0]) or 0)
+        gets = [c for c in b.calls() if c.name() in ("get", "contains_key", "entry") and c.args and maps(c)]
+        ins = [c for c in b.calls() if c.name() in ("insert", "entry") and c.args and maps(c)]
+        if not gets:
+            continue
+        n += 1
+        R.saw(b)
+        groots = {b.alias_root(c.args[0]) for c in gets}
+        iroots = {b.alias_root(c.args[0]) for c in ins}
+        same = bool(ins) and iroots <= groots and groots <= iroots
+        R.ob("C05-R11", "same-map:" + b.name, "%s looks variables up in the map it binds them in" % b.name, same, where=b.where(),
+             detail=None if same else "lookups read %s, bindings go to %s" % (sorted(b.local_name(x) or "_%d" % x for x in groots), sorted(b.local_name(x) or "_%d" % x for x in iroots)))
+        if not same:
+            continue
+        loops = b.loops()
+        items = list(loops.items() if isinstance(loops, dict) else loops)
+        bad = []
+        for g in gets:
+            X = b.alias_root(g.args[0])
+            avoid = {c.bb for c in gets if c is not g and b.alias_root(c.args[0]) == X}
+            for h, bl in items:
+                if g.bb in bl:
+                    avoid.add(h)
+            tgt = [i.bb for i in ins if b.alias_root(i.args[0]) == X]
+            r = b.reach_from([g.bb], avoid=avoid - {g.bb})
+            if not any(t in r or t == g.bb for t in tgt):
+                bad.append(g.ln)
+        R.ob("C05-R11", "bind-before-next-lookup:" + b.name, "%s binds a variable before the next position is looked up" % b.name, not bad,
+             where=b.where(bad[0] if bad else None), detail=None if not bad else "after a failed lookup no insert into the looked-up map is reached before "
+             "the next lookup: a variable that occurs twice in one pattern is compared with nothing and the later position overwrites the earlier")
+    R.floor("C05-R11", "match-or-bind helpers (pattern x fact x &mut bindings -> bool)", n, 1)
